@@ -132,7 +132,7 @@ func writeEvidence(prop, tier string, seed int, spec *PropSpec, results []*harne
 		},
 	}
 	b, _ := json.MarshalIndent(ev, "", " ")
-	dir := filepath.Join(verifDir, "evidence")
+	dir := filepath.Join(outDir, "evidence")
 	os.MkdirAll(dir, 0o755)
 	if err := os.WriteFile(filepath.Join(dir, prop+".json"), b, 0o644); err != nil {
 		fmt.Fprintln(os.Stderr, "evidence:", err)
